@@ -138,6 +138,20 @@ def rand_scenario(rng, idx, focus):
     return sc
 
 
+def manysess_scenario(rng, idx, n=200):
+    """very many sessions left open (continuation registered) on one connection, then follow-ups and a replay for old ones"""
+    sids = [(i * 7919 + 5 + idx) & 0xffffffff for i in range(n)]
+    pk = []
+    for i in range(n):
+        pk.append({"sid": i, "seq": 1, "ty": rng.randint(1, 3), "min": 0, "fl": 1, "rd": "ok", "ops": ["next", "reply"], "bv": 0})
+    for i in rng.sample(range(n), 3) + [0, n - 1]:
+        pk.append({"sid": i, "seq": 3, "ty": pk[i]["ty"], "min": 0, "fl": 1, "rd": "ok", "ops": ["reply"], "bv": 0})
+    j = rng.choice([1, 2, n // 2])
+    pk.append({"sid": j, "seq": 1, "ty": pk[j]["ty"], "min": 0, "fl": 1, "rd": "ok", "ops": ["reply"], "bv": 0})     # replay of an open session's first packet
+    pk.append({"sid": 0, "seq": 0, "ty": 0, "min": 0, "fl": 0, "rd": "eof", "ops": []})
+    return {"id": "manysess%d" % idx, "sids": sids, "pkts": pk}
+
+
 def scripts_to_scenarios(scripts, prefix):
     return [{"id": "%s%d" % (prefix, i), "pkts": s} for i, s in enumerate(scripts)]
 
@@ -165,6 +179,12 @@ def collect(ctx, prop):
         scripts = short + rest[:max(0, nmc - len(short))]
     scen = scripts_to_scenarios(scripts, "mc")
     scen += [rand_scenario(rng, i, prop) for i in range(nrand)]
+    # boundary session ids (0, 1, the sign bit, all ones) on a share of the scenarios
+    for s in scen:
+        if rng.random() < 0.12:
+            s["sids"] = rng.sample([0, 1, 0x80000000, 0xffffffff, 0x00000100, 0x7fffffff], 4)
+    if prop in ("C08", "C07", "C20"):
+        scen += [manysess_scenario(rng, i, 200 if i % 2 == 0 else 140) for i in range(6 if quick else 60)]
     byid = {s["id"]: s for s in scen}
     sf = ctx.path("scen.ndjson")
     with open(sf, "w") as f:
